@@ -258,6 +258,14 @@ def run_c10(prop, tier):
                                  prefix_files=(out,))
                         shutil.move(p + ".bak", p)
                 os.unlink(p)
+            # a pack file reached through its recorded location, itself embedded at the end of another file
+            for fn in sorted(others):
+                p = os.path.join(w.dir, fn)
+                for n in ((63, 4096) if tier == "quick" else (1, 63, 64, 4096)):
+                    shutil.copy(p, p + ".bak")
+                    prefix_file(p, n, rng)
+                    R.config(w, w.entry, {"mode": mode, "extras": nex, "op": "prefix-pack-file", "file": w.names[fn], "n": n}, prefix_files=(fn,))
+                    shutil.move(p + ".bak", p)
             if mode == "one":
                 p = os.path.join(w.dir, w.entry)
                 for n in (1, 63, 64, 4096):
@@ -268,7 +276,8 @@ def run_c10(prop, tier):
         C.log("[%s] container %d done %.0fs (%d configurations)" % (prop, ci, time.time() - rep.t0, R.n))
     R.finish()
     rep.cov["rule"] = ("for each seeded logical container (entries + contents, 0-2 extra content packs): the three packagings, concat of the loose files "
-                       "in every order (sampled above 24/120) and of every subset containing the entry point, prefixes of 1/63/64/4096 bytes; each configuration is "
+                       "in every order (sampled above 24/120) and of every subset containing the entry point, prefixes of 1/63/64/4096 bytes in front of the entry file and in front of "
+                       "each pack file reached through its recorded location; each configuration is "
                        "dumped through reader::Container and compared item by item with the logical container; distinct = different configuration; all non-trivial")
     rep.cov["exhaustive"] = False
     rep.assumptions += ["which file holds which pack identity is taken from the independent decoder"]
@@ -386,29 +395,67 @@ def run_c12(prop, tier):
                         loc = rng.choice(LOCS)
                         set_location_step(R, rep, w2, entry, vname, mode, target, loc, rng)
         C.log("[%s] container %d done %.0fs (%d steps)" % (prop, ci, time.time() - rep.t0, R.n))
+    big_manifests(R, rep, rng, tier)
     R.finish()
     rep.cov["rule"] = ("manifests standalone and inside container files (directly created and after concat, so at several offsets), every listed pack and an unknown uuid, "
+                       "manifests written with ManifestPackCreator over synthetic pack descriptions whose pack-info table starts beyond 64 KiB and 128 KiB (2000 packs; "
+                       "packs with 30 000 - 70 000 bytes of free data), "
                        "location strings of 0, 1, 212, 213 bytes and multi-byte UTF-8 ending exactly at 213, sequences of 1-5 rewrites; after each step byte diff, independent "
                        "decode, library manifest view and full dump; distinct = different (packaging, target, string) step")
     return rep.finish()
 
 
-def set_location_step(R, rep, w, entry, vname, mode, target, loc, rng):
-    R.k += 1
-    sid = "k%d" % R.k
-    hist = getattr(w, "history", [])
-    w.history = hist
-    desc = {"mode": mode, "variant": vname, "target": target, "loc_len": len(loc.encode()), "loc": loc[:20], "history": list(hist)}
-    hist.append([target, loc[:8], len(loc.encode())])
-    R.cfgs[sid] = desc
-    path = os.path.join(w.dir, entry)
+def big_manifests(R, rep, rng, tier):
+    """manifests BasicCreator never writes: the pack-info table far from the start of the manifest (many packs, or packs
+    with large free data), standalone and inside a container file; locations of packs at the start, in the middle and
+    at the end of the table are rewritten"""
+    shapes = [("free", [(30000, 3), (24, 1)]), ("many", [(24, 2000)])]
+    if tier != "quick":
+        shapes += [("free2", [(70000, 2), (0, 1), (1, 3)]), ("many2", [(100, 700)]), ("small", [(24, 4)])]
+    for name, groups in shapes:
+        for in_container in (False, True):
+            d = os.path.join(R.base, "big_%s_%d" % (name, in_container))
+            shutil.rmtree(d, ignore_errors=True)
+            os.makedirs(d)
+            packs = []
+            for free_len, n in groups:
+                for _ in range(n):
+                    i = len(packs) + 1
+                    packs.append({"uuid": "10000000-0000-4000-8000-%012x" % i, "pack_id": i, "free_len": free_len, "free_seed": 7000 + i, "loc": "content_%d.jbkc" % i})
+            path = os.path.join(d, "m.jbk")
+            t = R.harness([{"kind": "tool", "id": "mk", "op": "make_manifest", "out": path, "packs": packs, "in_container": in_container}], "mk")["mk"]
+            te = next((e for e in t["events"] if e["ev"] == "Tool"), None) or {"res": t["status"]}
+            if te["res"] != "ok":
+                rep.violation("%s manifest of %d packs (%s) cannot be written: %s" % (R.prop, len(packs), name, te.get("err") or te.get("panic") or te["res"]), {"tool": te})
+                continue
+            n = len(packs)
+            targets = sorted({0, 1, n // 2, n - 1} & set(range(n)))
+            steps = [(packs[i]["uuid"], True) for i in targets] + [(te["out"]["directory"], True), ("00000000-0000-4000-8000-000000000001", False)]
+            rng.shuffle(steps)
+            for uuid, known in steps[:4 if tier == "quick" else 8]:
+                for loc in rng.sample(LOCS, 2 if tier == "quick" else 4):
+                    R.k += 1
+                    sid = "k%d" % R.k
+                    R.cfgs[sid] = {"mode": "synthetic manifest %s" % name, "variant": "container" if in_container else "standalone", "packs": n,
+                                   "target": uuid[-6:], "loc_len": len(loc.encode())}
+                    ev, te2, _ = rewrite_once(R, sid, path, uuid, loc, known)
+                    R.events += [{"ev": "Config", "scn": sid, "entry": "main", "mode": "none"}, ev]
+                    R.n += 1
+            shutil.rmtree(d, ignore_errors=True)
+        C.log("[%s] synthetic manifests %s done %.0fs" % (R.prop, name, time.time() - rep.t0))
+
+
+def rewrite_once(R, sid, path, uuid, loc, known):
+    """one set_location on `path`: the SetLocation event (byte diff located by the independent decoder's map of the
+    original file, independent decode of the result, the library's own view), the tool event and the original manifest"""
     before = open(path, "rb").read()
     dec0 = jbkdec.decode_file(path, data=before, check_hash=False)
-    man0 = next(p for p in jbkdec.all_packs(dec0) if p["kind"] == "m")
-    known = target != "unknown"
-    uuid = w.uuid_of[target] if known and target in w.uuid_of else "00000000-0000-4000-8000-000000000001"
-    if known and target not in w.uuid_of:
-        return
+    man0 = next((p for p in jbkdec.all_packs(dec0) if p["kind"] == "m"), None)
+    if man0 is None:
+        # an earlier rewrite of this history left a file in which the independent decoder finds no manifest any more
+        ev = {"ev": "SetLocation", "scn": sid, "known": known, "res": "err", "found": False, "diffOutside": 0, "diffInsideOther": 0, "manifestOpens": False,
+              "manifestCheck": "", "otherInfosSame": False, "readBack": False, "fileSame": True, "err": "no manifest can be decoded in the file before this rewrite"}
+        return ev, {"res": "err"}, {"packInfos": []}
     t = R.harness([{"kind": "tool", "id": sid, "op": "set_location", "file": path, "uuid": uuid, "loc": loc}], "setloc")[sid]
     te = next((e for e in t["events"] if e["ev"] == "Tool"), None) or {"res": t["status"]}
     after = open(path, "rb").read()
@@ -457,6 +504,23 @@ def set_location_step(R, rep, w, entry, vname, mode, target, loc, rng):
         ev["otherInfosSame"] = same
     else:
         ev["err"] = (ev["err"] + " decode:" + json.dumps(bad[:2]))[:200]
+    return ev, te, man0
+
+
+def set_location_step(R, rep, w, entry, vname, mode, target, loc, rng):
+    R.k += 1
+    sid = "k%d" % R.k
+    hist = getattr(w, "history", [])
+    w.history = hist
+    desc = {"mode": mode, "variant": vname, "target": target, "loc_len": len(loc.encode()), "loc": loc[:20], "history": list(hist)}
+    hist.append([target, loc[:8], len(loc.encode())])
+    R.cfgs[sid] = desc
+    path = os.path.join(w.dir, entry)
+    known = target != "unknown"
+    uuid = w.uuid_of[target] if known and target in w.uuid_of else "00000000-0000-4000-8000-000000000001"
+    if known and target not in w.uuid_of:
+        return
+    ev, te, man0 = rewrite_once(R, sid, path, uuid, loc, known)
     evs = [ev]
     # content unchanged: move the pack's file to the new location when that makes sense, then dump
     if known and te["res"] == "ok" and ev["manifestOpens"]:
